@@ -110,6 +110,33 @@ def classify_parser(cg, f, expr, depth=0, seen=None):
         return 'default', 'parser=None (lxml default parser)'
     if is_configured_parser(expr):
         return 'configured', unparse(expr)
+    if isinstance(expr, ast.Call) and call_name(expr) == 'XMLParser' and \
+            not expr.args and len(expr.keywords) == 1 and \
+            expr.keywords[0].arg is None and isinstance(
+            expr.keywords[0].value, ast.Name):
+        # XMLParser(**local): the local must only ever alias parser_kwargs
+        nm = expr.keywords[0].value.id
+        vals = local_assignments(f.node, nm)
+        touched = [n for n in walk_no_defs(f.node) if (
+            isinstance(n, ast.Call) and isinstance(n.func, ast.Attribute) and
+            isinstance(n.func.value, ast.Name) and n.func.value.id == nm and
+            n.func.attr in ('update', 'setdefault', 'pop', '__setitem__'))
+            or (isinstance(n, (ast.Assign, ast.AugAssign)) and any(
+                isinstance(t, ast.Subscript) and isinstance(
+                    t.value, ast.Name) and t.value.id == nm
+                for t in (n.targets if isinstance(n, ast.Assign)
+                          else [n.target])))]
+        alias = vals and all(isinstance(v, ast.Attribute) and
+                             v.attr == 'parser_kwargs' for v in vals)
+        if alias and not touched:
+            return 'configured', 'XMLParser(**%s), %s = %s' % (
+                nm, nm, unparse(vals[0]))
+        if vals and any('parser_kwargs' in unparse(v) for v in vals):
+            over = [unparse(v)[:60] for v in vals if not (
+                isinstance(v, ast.Attribute) and v.attr == 'parser_kwargs')]
+            over += [unparse(n)[:60] for n in touched]
+            return 'modified', 'XMLParser(**%s) where %s is a per-request ' \
+                'copy of parser_kwargs with overrides: %s' % (nm, nm, over)
     if isinstance(expr, ast.Name):
         vals = local_assignments(f.node, expr.id)
         params = [a.arg for a in f.node.args.args + f.node.args.kwonlyargs]
@@ -157,9 +184,10 @@ def classify_parser(cg, f, expr, depth=0, seen=None):
             for v in verdicts:
                 if v[0] == 'default':
                     return v[0], '%s <- %s' % (expr.id, v[1])
-            for v in verdicts:
-                if v[0] == 'unknown':
-                    return v
+            for kind in ('shared', 'modified', 'unknown'):
+                for v in verdicts:
+                    if v[0] == kind:
+                        return v
             if vals:
                 sub = [classify_parser(cg, f, v, depth + 1) for v in vals]
                 for v in sub:
@@ -289,6 +317,15 @@ def run(prog, res, tier):
                                                    unparse(call.func)), where,
                     'the parser handed to %s comes from class-level state: %s'
                     % (unparse(call.func), why))
+            elif verdict == 'modified':
+                res.ob('R1', where, inst, 'VIOLATED')
+                res.finding(
+                    'R1', '%s|%s|modified-options' % (f.qualname,
+                                                      unparse(call.func)),
+                    where, 'the request decides the parser options: %s; the '
+                    'limits the protocol was constructed with (huge_tree, '
+                    'resolve_entities, ...) no longer hold for every '
+                    'request' % why)
             elif verdict == 'default':
                 res.ob('R1', where, inst, 'VIOLATED')
                 res.finding(
@@ -355,6 +392,27 @@ def run(prog, res, tier):
     if len(main) != 1:
         raise AnalysisError('C17-R2 parser_kwargs', 'expected one assignment '
                             'in XmlDocument.__init__, found %d' % len(main))
+    # the option table may be built in a local first; anything but a plain
+    # alias of a literal table loses options
+    mval = main[0][1].value
+    if isinstance(mval, ast.Name):
+        loc = local_assignments(init.node, mval.id)
+        if len(loc) == 1:
+            mval = loc[0]
+    if not ((isinstance(mval, ast.Call) and call_name(mval) == 'dict' and
+             not mval.args) or isinstance(mval, ast.Dict)):
+        where = '%s:%d' % (init.module.relpath, main[0][1].lineno)
+        res.ob('R2', where, 'parser_kwargs = %s' % unparse(mval)[:70],
+               'VIOLATED')
+        res.finding('R2', 'XmlDocument.__init__|parser_kwargs|derived', where,
+                    'parser_kwargs is computed (%s) instead of being the '
+                    'literal option table: options can be dropped or '
+                    'changed on the way; filtering out falsy entries removes '
+                    'every safe False setting (resolve_entities, load_dtd, '
+                    'huge_tree, no_network=...), so lxml\'s own defaults '
+                    'apply' % unparse(mval)[:70])
+        _tail(prog, res, tier)
+        return
     for f, n, t in stores:
         if (f, n, t) == main[0]:
             continue
@@ -364,7 +422,7 @@ def run(prog, res, tier):
         res.finding('R2', '%s|store|%s' % (f.qualname, unparse(t)), where,
                     'parser_kwargs is modified after construction: %s' %
                     unparse(n)[:100])
-    val = main[0][1].value
+    val = mval
     pairs = {}
     if isinstance(val, ast.Call) and call_name(val) == 'dict' and not val.args:
         for kw in val.keywords:
@@ -415,6 +473,49 @@ def run(prog, res, tier):
                         'parser option %s is bound to %s, not to the '
                         'same-named constructor parameter' % (name,
                                                               unparse(v)))
+    _tail(prog, res, tier)
+
+
+# ------------------------------------------------------------------- R4
+TEXT_HARVESTERS = ('xpath', 'itertext', 'text_content', 'tostring',
+                   'tounicode', 'iterwalk')
+
+
+def rule_r4(prog, res):
+    res.rule('R4', 'leaf readers take element text from .text only: no '
+             'string-value computation that would include entity nodes')
+    x = prog.cls('spyne.protocol.xml:XmlDocument')
+    n = 0
+    for nm, f in sorted(x.methods.items()):
+        if not nm.endswith('_from_element') or nm in (
+                'complex_from_element', 'array_from_element',
+                'iterable_from_element', 'xml_from_element',
+                'html_from_element', 'dict_from_element',
+                'schema_validation_from_element'):
+            continue
+        n += 1
+        bad = [c for c in calls_in(f.node) if call_name(c) in TEXT_HARVESTERS
+               and isinstance(c.func, ast.Attribute)]
+        res.ob('R4', f.where, '%s: %s' % (f.qualname, 'reads .text only'
+                                          if not bad else
+                                          'harvests text with %s' %
+                                          [unparse(c)[:30] for c in bad]),
+               'VIOLATED' if bad else 'ok')
+        for c in bad:
+            res.finding('R4', '%s|text-harvest|%s' % (f.qualname,
+                                                      call_name(c)),
+                        '%s:%d' % (f.module.relpath, c.lineno),
+                        '%s computes the value with %s: unlike .text this '
+                        'includes the text of child and entity-reference '
+                        'nodes, so a declared internal entity (kept '
+                        'unresolved by resolve_entities=False) is '
+                        'substituted into the value user code receives' % (
+                            f.qualname, unparse(c)[:40]))
+    res.floor('R4', 'primitive element readers', n, 4)
+
+
+def _tail(prog, res, tier):
+    res.run_rule(rule_r4, prog, res)
     # subclasses forward *args/**kwargs unchanged
     xmldoc = prog.cls('spyne.protocol.xml:XmlDocument')
     n_sub = 0
@@ -476,6 +577,31 @@ _S = 'spyne/protocol/soap/soap11.py'
 _M = 'spyne/protocol/soap/mime.py'
 
 MUTANTS = [
+    Mutant('options-filtered-truthy', 'R2', 'fire', _X,
+           in_func('XmlDocument.__init__', "            encoding=encoding,\n"
+                   "        )",
+                   "            encoding=encoding,\n        )\n"
+                   "        self.parser_kwargs = dict((k, v) for k, v in "
+                   "self.parser_kwargs.items() if v)"), 'parser_kwargs'),
+    Mutant('per-request-huge-tree', 'R1', 'fire', _S,
+           in_func('Soap11.create_in_document',
+                   r"ctx\.in_document = _parse_xml_string\(ctx\.in_string,\s*"
+                   r"XMLParser\(\*\*self\.parser_kwargs\),",
+                   "kw = dict(self.parser_kwargs, huge_tree=True)\n"
+                   "        ctx.in_document = _parse_xml_string(ctx.in_string,"
+                   " XMLParser(**kw),", regex=True), 'modified-options'),
+    Mutant('parser-options-aliased', 'R1', 'benign', _S,
+           in_func('Soap11.create_in_document',
+                   r"ctx\.in_document = _parse_xml_string\(ctx\.in_string,\s*"
+                   r"XMLParser\(\*\*self\.parser_kwargs\),",
+                   "kw = self.parser_kwargs\n"
+                   "        ctx.in_document = _parse_xml_string(ctx.in_string,"
+                   " XMLParser(**kw),", regex=True), None),
+    Mutant('unicode-string-value', 'R4', 'fire', _X,
+           in_func('XmlDocument.unicode_from_element',
+                   "        s = element.text\n",
+                   "        s = element.xpath('string()')\n"),
+           'text-harvest'),
     Mutant('default-resolve-entities', 'R2', 'fire', _X,
            in_func('XmlDocument.__init__', 'resolve_entities=False',
                    'resolve_entities=True'), 'resolve_entities'),
